@@ -23,6 +23,7 @@ from .types import (
     ObjectType,
     ScalarType,
     UnionType,
+    unwrap_type,
 )
 
 
@@ -313,9 +314,25 @@ def _format_default_value(
         return str(dv).lower()
     elif dv is None:
         return "null"
-    elif isinstance(dv, str):
-        return '"%s"' % dv
-    return json.dumps(dv)
+    elif isinstance(dv, str) and not isinstance(
+        unwrap_type(input_value.type), EnumType
+    ):
+        return '"%s"' % (
+            dv.replace("\\", "\\\\")
+            .replace('"', '\\"')
+            .replace("\n", "\\n")
+            .replace("\r", "\\r")
+        )
+
+    # Circular imports
+    from ..lang import print_ast
+    from ..utilities.ast_node_from_value import ast_node_from_value
+
+    try:
+        # GraphQL syntax: enum names, unquoted object keys, etc.
+        return print_ast(ast_node_from_value(dv, input_value.type))
+    except (TypeError, ValueError):
+        return json.dumps(dv)
 
 
 __InputValue__ = ObjectType(
